@@ -61,6 +61,22 @@ CHECKS = {
              "coincide by construction; verified on every corpus code object, on random layout variants of real modules, and "
              "along every API history within the bound.",
         ref="DESIGN.md 5 C06"),
+    "C07": dict(
+        technique="TLA+ constant terms and documented JSON form (CPyConst), plainness and a JSON-Schema validator written in "
+                  "TLA+ (JsonCodec) applied to the PUBLISHED schema; TLC enumerates terms (MC_Json, injectivity up to LibKey); "
+                  "real documents tagged node by node and validated by TLC (Trace_Json); TLA+ validator cross-checked with the "
+                  "jsonschema package on every document",
+        text="Every constant term of the bounded model at every position of a hand-built CodeData, and decoded/normalised corpus "
+             "data, go through to_json_data, strict dumps/loads and from_json_data on the real library; TLC decides plainness, "
+             "schema validity, equality, hash and identical code from the recording.",
+        ref="DESIGN.md 5 C07"),
+    "C08": dict(
+        technique="TLA+ partitions LibKey/CPyKey (CPyConst) as the expected equality; all pairs of model terms x 25 route pairs "
+                  "compared on the real library; TLC trace validation (Trace_Values); CPyKey bound to ctypes "
+                  "_PyCode_ConstantKey; frozen-field probing; hash agreement along API histories (Trace_Api P08.hash)",
+        text="TLC requires real equality among constants built by five routes to coincide with LibKey-equality for every pair of "
+             "terms, with hash/set/dict consistency, symmetry and reflexivity, and immutability of every dataclass field.",
+        ref="DESIGN.md 5 C08"),
     "C09": dict(
         technique="TLA+ first-use ranks computed from CPython's reading (DecodeProps) + override-removal experiments on the real "
                   "library, validated by TLC (P09.*) on model streams and compiled code objects; reference decoder with the "
